@@ -1,0 +1,58 @@
+//go:build verif
+
+package pcs
+
+import "time"
+
+// This file is only compiled with the `verif` build tag. It exposes the (private) pure decision
+// functions of tcb.go to the verification harness in /verif (property C18) so that they can be
+// run directly on parsed collateral. It adds no behaviour to the package.
+
+// VerifGetTCBLevel runs the real getTCBLevel and returns the index of the selected level in
+// ti.TCBLevels (-1 on error) and its status.
+func (ti *TCBInfo) VerifGetTCBLevel(sgxCompSvn [16]int32, tdxCompSvn *[16]byte, pcesvn uint16) (int, TCBStatus, error) {
+	lvl, err := ti.getTCBLevel(sgxCompSvn, tdxCompSvn, pcesvn)
+	if err != nil {
+		return -1, 0, err
+	}
+	for i := range ti.TCBLevels {
+		if lvl == &ti.TCBLevels[i] {
+			return i, lvl.Status, nil
+		}
+	}
+	return -1, lvl.Status, nil
+}
+
+// VerifValidateTCBLevel runs the real validateTCBLevel.
+func (ti *TCBInfo) VerifValidateTCBLevel(sgxCompSvn [16]int32, tdxCompSvn *[16]byte, pcesvn uint16) error {
+	return ti.validateTCBLevel(sgxCompSvn, tdxCompSvn, pcesvn)
+}
+
+// VerifMatches runs the real TCBLevel.matches.
+func (tl *TCBLevel) VerifMatches(sgxCompSvn [16]int32, tdxCompSvn *[16]byte, pcesvn uint16) bool {
+	return tl.matches(sgxCompSvn, tdxCompSvn, pcesvn)
+}
+
+// VerifValidate runs the real TCBInfo.validate.
+func (ti *TCBInfo) VerifValidate(teeType TeeType, ts time.Time, policy *QuotePolicy) error {
+	return ti.validate(teeType, ts, policy)
+}
+
+// VerifValidateFMSPC runs the real TCBInfo.validateFMSPC.
+func (ti *TCBInfo) VerifValidateFMSPC(fmspc []byte) error {
+	return ti.validateFMSPC(fmspc)
+}
+
+// VerifValidate runs the real QEIdentity.validate.
+func (qe *QEIdentity) VerifValidate(teeType TeeType, ts time.Time, policy *QuotePolicy) error {
+	return qe.validate(teeType, ts, policy)
+}
+
+// VerifVerify runs the real QEIdentity.verify against a raw (384-byte) QE report.
+func (qe *QEIdentity) VerifVerify(rawReport []byte) error {
+	var r SgxReport
+	if err := r.UnmarshalBinary(rawReport); err != nil {
+		return err
+	}
+	return qe.verify(&r)
+}
